@@ -343,12 +343,17 @@ def part_base(part):
 def pattern_for(draw, part):
     n = len(part_content(part))
     kinds = ['skip', 'read', 'read', 'read_all', 'chunked', 'data', 'data2', 'text', 'read_until', 'readline', 'pipe',
-             'iter', 'read_then_data', 'ru_then_read', 'lines', 'exhaust']
+             'iter', 'read_then_data', 'ru_then_read', 'lines', 'exhaust', 'reads', 'reads']
     if part_base(part) == 'application/json':
         kinds += ['media'] * 12
     k = draw(st.sampled_from(kinds))
     if k in ('read', 'read_then_data'):
         return [k, draw(st.one_of(st.integers(0, n + 2), st.integers(0, 3)))]
+    if k == 'reads':
+        # a history of sized reads of very different sizes on one part stream (small, then spanning several reader
+        # chunks, then small again), followed by whatever is left
+        size = st.one_of(st.integers(0, 12), st.integers(0, n + 2), st.sampled_from([1, 10, 100, 33000, 66000, 100000]))
+        return [k, draw(st.lists(size, min_size=2, max_size=5))]
     if k == 'chunked':
         return [k, draw(st.integers(1, 9))]
     if k in ('read_until', 'ru_then_read'):
